@@ -571,7 +571,14 @@ fn op_cas(ctx: Ctx, c: u8, cur: Cur, form: u8, v: V, g: u8) {
                                     C::GuardOwn(gd)
                                 } else {
                                     // the guard is borrowed; remember where it goes back
-                                    w(|w| w.inflight_guard_uids.push(uid));
+                                    // (a guard of a weak pointer does not keep the value alive:
+                                    // it is no owner as far as destruction is concerned)
+                                    w(|w| {
+                                        let weak = w.conts.get(cont as usize).map(|e| e.kind == CKind::WD as u8).unwrap_or(false);
+                                        if !weak {
+                                            w.inflight_guard_uids.push(uid);
+                                        }
+                                    });
                                     let shell = (uid, addr, cont);
                                     C::GuardRef(shell, gd, gs)
                                 }
@@ -622,8 +629,11 @@ fn op_cas(ctx: Ctx, c: u8, cur: Cur, form: u8, v: V, g: u8) {
                 // put the borrowed guard back
                 let (uid, addr, cont) = shell;
                 w(|w| {
-                    if let Some(i) = w.inflight_guard_uids.iter().position(|u| *u == uid) {
-                        w.inflight_guard_uids.remove(i);
+                    let weak = w.conts.get(cont as usize).map(|e| e.kind == CKind::WD as u8).unwrap_or(false);
+                    if !weak {
+                        if let Some(i) = w.inflight_guard_uids.iter().position(|u| *u == uid) {
+                            w.inflight_guard_uids.remove(i);
+                        }
                     }
                 });
                 w(|w| w.guards[gslot(ctx, gs)] = Some(GEntry { g: wrap(gd), uid, addr, cont }));
